@@ -27,9 +27,21 @@ def bounds_in_default_unit(node, ast):
 
 class StlHorizon(LtlHorizon, StlAstVisitor):
 
-    def __init__(self, ast=None):
+    def __init__(self, ast=None, discrete_time=False):
         LtlHorizon.__init__(self)
         self.ast = ast
+        self.discrete_time = discrete_time
+
+    def check_bounds(self, begin, end):
+        # The pastifier merges the bounds of a future operator (once[0,end-begin],
+        # delays by once[d,d]); in discrete time they must be multiples of the
+        # sampling period before that, as the interpreters demand for every bound.
+        if not self.discrete_time:
+            return
+        sample = self.sample_duration()
+        for bound in (begin, end):
+            if Fraction(bound) % sample != 0:
+                raise RTAMTException('The operator bound must be a multiple of the sampling period')
 
     def visit(self, node, *args, **kwargs):
         return StlAstVisitor.visit(self, node, *args, **kwargs)
@@ -54,12 +66,14 @@ class StlHorizon(LtlHorizon, StlAstVisitor):
     def visitTimedEventually(self, node, *args, **kwargs):
         op_horizon = self.visit(node.children[0], *args, **kwargs)
         begin, end = bounds_in_default_unit(node, self.ast)
+        self.check_bounds(begin, end)
         self.horizons[node] = op_horizon + end
         return op_horizon + end
 
     def visitTimedAlways(self, node, *args, **kwargs):
         op_horizon = self.visit(node.children[0], *args, **kwargs)
         begin, end = bounds_in_default_unit(node, self.ast)
+        self.check_bounds(begin, end)
         self.horizons[node] = op_horizon + end
         return op_horizon + end
 
@@ -67,6 +81,7 @@ class StlHorizon(LtlHorizon, StlAstVisitor):
         op1_horizon = self.visit(node.children[0], *args, **kwargs)
         op2_horizon = self.visit(node.children[1], *args, **kwargs)
         begin, end = bounds_in_default_unit(node, self.ast)
+        self.check_bounds(begin, end)
         out = max(op1_horizon, op2_horizon) + end
         self.horizons[node] = out
         return out
